@@ -18,7 +18,8 @@
 #   .traits                   dict of ground truth: 'reject' (reasons the property text demands non-acceptance),
 #                             'unspecified' (reasons the text says nothing: expect_accept None), 'defects'
 #                             (reasons the image is not well-formed for C07), 'complete_at' (shortest prefix
-#                             that contains everything the inspector needs; None = never), 'tail_sensitive'
+#                             that contains everything the inspector needs; None = never), 'size_known_at' (shortest
+#                             prefix containing the structure that carries the size: C07 "0 while unknown"), 'tail_sensitive'
 #                             (verdict depends on the last bytes of the stream), 'zones' (known-finding zones
 #                             F1..F4 the bytes fall into) + format specific values
 #   .expect_accept            True: C02 says safety_check() must return; False: must not; None: text is silent
@@ -142,6 +143,10 @@ _WORDS = ('disk image lorem ipsum dolor sit amet version extent sparse header ta
 
 
 def _text(rng, n):
+    if n > 32768:                       # long texts: tile a random 16 KiB block (keeps multi-MiB streams cheap)
+        block = _text(rng, 16384)
+        block = block[:block.rfind(b'\n') + 1] or block
+        return (block * (n // len(block) + 1))[:n]
     out = []
     tot = 0
     while tot < n:
@@ -209,7 +214,7 @@ def size_values(fmt, rng, n_random=4):
 
 
 def _result(fmt, data, declared, bounds, fields, params, reject, unspecified, defects,
-            complete_at, tail_sensitive=False, extra=None):
+            complete_at, tail_sensitive=False, extra=None, size_known_at=None):
     """Assemble the Image; expect_accept strictly from the property text of C02."""
     n = len(data)
     reject = list(reject)
@@ -227,7 +232,8 @@ def _result(fmt, data, declared, bounds, fields, params, reject, unspecified, de
         exp = True
     wf = not defects
     traits = dict(reject=reject, unspecified=list(unspecified), defects=list(defects),
-                  complete_at=complete_at, tail_sensitive=tail_sensitive)
+                  complete_at=complete_at, tail_sensitive=tail_sensitive,
+                  size_known_at=complete_at if size_known_at is None else size_known_at)
     if extra:
         traits.update(extra)
     traits['zones'] = zones_of(bytes(data))
@@ -1138,7 +1144,7 @@ def build_vmdk(rng=None, **params):
     fields = {f.name: f for f in fields_l}
     return _result('vmdk', buf, (capacity & U64) * 512, bounds, fields,
                    dict(p, subformat=sub, capacity=capacity, desc_num=desc_num, version=version, gd_offset=gd),
-                   reject, unspec, defects, complete_at, tail_sensitive=tail_sensitive,
+                   reject, unspec, defects, complete_at, tail_sensitive=tail_sensitive, size_known_at=512 + desc_size,
                    extra=dict(text_only=False, descriptor_len=len(text), desc_size=desc_size, has_footer=has_footer,
                               footer_offset=foot_base, desc=dinfo, capacity=capacity & U64))
 
@@ -1383,7 +1389,10 @@ def random_wellformed(fmt, rng):
     if fmt == 'qed':
         return build_qed(rng, image_size=pick())
     if fmt == 'vhd':
-        return build_vhd(rng, size=pick())
+        sz = pick()
+        # half of the images carry a different "current size" (offset 48): the property and the inspector use the
+        # size at offset 40 (traits['vhd_resized'] tells)
+        return build_vhd(rng, size=sz, current_size=sz if rng.random() < 0.5 else rng.getrandbits(40))
     if fmt == 'vdi':
         return build_vdi(rng, size=pick())
     if fmt == 'iso':
